@@ -703,3 +703,40 @@ def r01_3c_day_number_guard(ctx: Ctx) -> RuleResult:
     else:
         rr.fail(g.qual, "outside the optimised day range the decoder does not delegate to the range-checked path", ctx.loc(g))
     return rr
+
+
+@rule("C01")
+def r01_7_era_bounds(ctx: Ctx) -> RuleResult:
+    """Gregorian/Julian era calculator: the advertised maximum year-of-era of each era is the year-of-era of the calendar's
+    first / last year, so every (era, year-of-era) the calendar reports converts back."""
+    from ..absint import Iv, Obj
+    from ..oblig import interp as mk
+
+    rr = RuleResult("R01.7", "GJ era calculator: max year-of-era of BC/AD equals the year-of-era of the calendar's minimum / maximum year (reported era values convert back at the edges)", min_instances=4)
+    M = ctx.M
+    gj = M.cls("_GJEraCalculator")
+    init = M.find_method(gj, "__init__")
+    yoe = M.find_method(gj, "_get_year_of_era")
+    if init is None or yoe is None:
+        raise AnalysisError("_GJEraCalculator.__init__ / _get_year_of_era missing")
+    for mn, mx in ((-9998, 9999), (-9997, 9998), (-5, 7)):
+        I = mk(ctx)
+        calc = Obj("_YearMonthDayCalculator", {mangle("_YearMonthDayCalculator", "__min_year"): Iv(mn, mn), mangle("_YearMonthDayCalculator", "__max_year"): Iv(mx, mx)})
+        rets, falls = I.analyse(init, params={"ymd_calculator": calc})
+        objs = [I._materialize("self", s.get("self"), s) for s in falls if isinstance(s.get("self"), Obj)]
+        if len(objs) != 1:
+            raise AnalysisError("_GJEraCalculator.__init__ could not be evaluated")
+        so = objs[0]
+        got_bc = so.fields.get(mangle("_GJEraCalculator", "__max_year_of_bc"))
+        got_ad = so.fields.get(mangle("_GJEraCalculator", "__max_year_of_ad"))
+        for label, got, y in (("BC", got_bc, mn), ("AD", got_ad, mx)):
+            rr.inst()
+            rr.states += 1
+            I2 = mk(ctx)
+            r2, _ = I2.analyse(yoe, self_obj=so, params={"absolute_year": Iv(y, y)})
+            want = r2[0][0] if len(r2) == 1 else None
+            if isinstance(got, Iv) and isinstance(want, Iv) and got.const and want.const and got.lo == want.lo:
+                rr.ok({"calendar_years": [mn, mx], "era": label, "max_year_of_era": int(got.lo)})
+            else:
+                rr.fail(gj.qual, f"for a calendar spanning years [{mn}, {mx}] the maximum year of era {label} is {got}, but year {y} is reported as year-of-era {want}: that year cannot be converted back from its own (era, year-of-era)", init.loc)
+    return rr
